@@ -166,3 +166,14 @@ Theorem C19_signal_read_total_except_known :
     /\ forall v, r_r (rrun rinit sched) = RDone v -> (v = 1 \/ v = 2)%Z.
 Proof. exact signal_read_total_except_contended. Qed.
 Print Assumptions C19_signal_read_total_except_known.
+
+(** read guards and synchronous reads of an async derived value overlapping the completion of
+    a reload (the value's task suspends instead of parking its thread; a synchronous read that
+    meets the write lock blocks and then returns the new value): BOUNDED sweep by computation,
+    two threads, every schedule of at most 12 slots *)
+Theorem C19_guard_vs_reload_bounded :
+  forall sched, (length sched <= 12)%nat -> Forall (fun t => (t < 2)%nat) sched ->
+    (h_quiet (hrun hinit sched) = true -> h_good (hrun hinit sched) = true)
+    /\ (d_quiet (drun dinit sched) = true -> d_good (drun dinit sched) = true).
+Proof. exact guard_vs_reload_bounded. Qed.
+Print Assumptions C19_guard_vs_reload_bounded.
